@@ -143,12 +143,12 @@ func c29RefCommit(b Block) (tc TxnCommitments, ok bool) {
 			return tc, false // malformed entry: genesis fields must be stripped inside a block
 		}
 		if stib.HasGenesisID {
-			full.GenesisID = b.GenesisID
+			full.GenesisID = b.BlockHeader.GenesisID
 		}
 		if stib.HasGenesisHash {
 			return tc, false // all plans used here require the genesis hash, the flag is then illegal
 		}
-		full.GenesisHash = b.GenesisHash
+		full.GenesisHash = b.BlockHeader.GenesisHash
 		l0 = append(l0, c29Leaf(c29S512_256, full, stib))
 		l1 = append(l1, c29Leaf(c29S256, full, stib))
 		l2 = append(l2, c29Leaf(c29S512, full, stib))
@@ -233,10 +233,10 @@ func c29DrawTxn(t *rapid.T, hdr BlockHeader, serial int) (transactions.SignedTxn
 func c29DrawBlock(t *rapid.T) Block {
 	var b Block
 	b.CurrentProtocol = c29Versions[rapid.IntRange(0, len(c29Versions)-1).Draw(t, "version")]
-	b.Round = basics.Round(rapid.IntRange(1, 1000).Draw(t, "round"))
-	b.GenesisID = []string{"c29net", "c29net-v1.0", "x"}[rapid.IntRange(0, 2).Draw(t, "gid")]
-	b.GenesisHash[0] = byte(rapid.IntRange(1, 255).Draw(t, "gh"))
-	b.GenesisHash[17] = 0x29
+	b.BlockHeader.Round = basics.Round(rapid.IntRange(1, 1000).Draw(t, "round"))
+	b.BlockHeader.GenesisID = []string{"c29net", "c29net-v1.0", "x"}[rapid.IntRange(0, 2).Draw(t, "gid")]
+	b.BlockHeader.GenesisHash[0] = byte(rapid.IntRange(1, 255).Draw(t, "gh"))
+	b.BlockHeader.GenesisHash[17] = 0x29
 	var n int
 	switch rapid.IntRange(0, 9).Draw(t, "sizeKind") {
 	case 0:
@@ -396,21 +396,21 @@ func c29Mutate(t *rapid.T, b Block) (Block, string) {
 			}
 			m.TxnCommitments = tc
 			return m, "empty-commitment-nonempty-payset"
-		case 13: // header genesis hash feeds every transaction id
-			if n < 1 {
+		case 13: // header genesis hash feeds every transaction id (tree plans only: the flat hash covers the stripped encoding)
+			if n < 1 || plan.flat {
 				continue
 			}
-			m.GenesisHash[9] ^= 4
+			m.BlockHeader.GenesisHash[9] ^= 4
 			return m, "header-genesis-hash"
 		case 14: // header genesis id feeds the ids of the transactions that carried it
 			has := false
 			for _, e := range m.Payset {
 				has = has || e.HasGenesisID
 			}
-			if !has {
+			if !has || plan.flat {
 				continue
 			}
-			m.GenesisID += "x"
+			m.BlockHeader.GenesisID += "x"
 			return m, "header-genesis-id"
 		default: // zero one commitment that is in use
 			switch rapid.IntRange(0, 2).Draw(t, "zero") {
@@ -475,10 +475,12 @@ func TestVerif_C29_Payset(t *testing.T) {
 			vk.Label("mut:" + what)
 		}
 		// an unknown protocol cannot be checked, so it cannot match
-		u := b
-		u.CurrentProtocol = "c29-unknown-protocol"
-		if u.ContentsMatchHeader() {
-			t.Fatalf("ContentsMatchHeader true under an unknown protocol")
+		if rapid.IntRange(0, 19).Draw(t, "probeUnknown") == 0 {
+			u := b
+			u.CurrentProtocol = "c29-unknown-protocol"
+			if u.ContentsMatchHeader() {
+				t.Fatalf("ContentsMatchHeader true under an unknown protocol")
+			}
 		}
 		n := len(b.Payset)
 		vk.Labelf("plan:%s", map[bool]string{true: "flat", false: map[bool]string{true: "merkle+256+512", false: map[bool]string{true: "merkle+256", false: "merkle"}[plan.s256]}[plan.s512]}[plan.flat])
@@ -494,7 +496,7 @@ func TestVerif_C29_Payset(t *testing.T) {
 		default:
 			vk.Label("size:other")
 		}
-		fp := fmt.Sprintf("%s/%x", b.CurrentProtocol, c29H(c29S256, protocol.Encode(b.Payset), []byte(b.GenesisID), b.GenesisHash[:]))
+		fp := fmt.Sprintf("%s/%x", b.CurrentProtocol, c29H(c29S256, protocol.Encode(b.Payset), []byte(b.BlockHeader.GenesisID), b.BlockHeader.GenesisHash[:]))
 		vk.Case(n >= 2, fp)
 		if vk.WantSample(n >= 2) {
 			vk.Sample(n >= 2, map[string]interface{}{"version": string(b.CurrentProtocol), "entries": n, "native": got.NativeSha512_256Commitment.String(), "sha256": got.Sha256Commitment.String()})
